@@ -21,8 +21,11 @@ octet coding of integers and strings is `Req/H2/Hpack.lean`, property C05):
   encode and then leave without writing (`abandon`).
 
 The static table is a parameter (the theorems hold for any); the lane passes RFC 7541 Appendix A.
-Not modelled: dynamic table size updates after the first block (SETTINGS_HEADER_TABLE_SIZE is fixed
-per connection here), Huffman coding, CONTINUATION splitting (the block is one unit under `wmu`).
+`Cfg.maxSize` = min(the peer's SETTINGS_HEADER_TABLE_SIZE, 4096): the model follows the REPAIRED
+behaviour (fixes/C09-5: `processSettingsNoWrite` passes the peer's value to the encoder; /repo
+10fb764 ignores it and keeps 4096 — finding C09-5, lane class `h2-peer-header-table-size-ignored`).
+Not modelled: a table size that changes after the first block, the size-update octets themselves,
+Huffman coding, CONTINUATION splitting (the block is one unit under `wmu`).
 -/
 namespace Req.Pool.H2Hpack
 open Req.Proto
